@@ -341,6 +341,61 @@ theorem submit_go_ok (ys : List (List UInt8)) : ∀ (js : List Int) (ms : List N
 
 end
 
+section
+open Sunrise Sunrise.RS
+theorem splitSized_lens (ext : List UInt8) (k size : Nat) (h : ext.length = k * size) :
+    ∀ s ∈ splitSized ext k size, s.length = size := by
+  intro s hs
+  unfold splitSized at hs
+  obtain ⟨i, hi, rfl⟩ := List.mem_map.mp hs
+  have hi' : i < k := List.mem_range.mp hi
+  rw [List.length_take, List.length_drop, h]
+  have : (i + 1) * size ≤ k * size := Nat.mul_le_mul_right _ hi'
+  rw [Nat.succ_mul] at this
+  omega
+
+theorem encodeParity_lens (k p : Nat) (data : List (List UInt8)) (size : Nat) (par : List (List UInt8))
+    (h : encodeParity k p data size = some par) : ∀ s ∈ par, s.length = size := by
+  unfold encodeParity at h
+  split at h
+  · simp at h; subst h; simp
+  · split at h
+    · simp at h
+    · simp only [Option.some.injEq] at h
+      subst h
+      intro s hs
+      simp only [codeShards, List.mem_map, Array.mem_toList_iff, Array.mem_map] at hs
+      obtain ⟨a, ⟨row, _, rfl⟩, rfl⟩ := hs
+      simp
+
+theorem firstSize_of_all (size : Nat) (hs : size ≠ 0) : ∀ (l : List (List UInt8)), l ≠ [] → (∀ s ∈ l, s.length = size) →
+    firstSize (l.map some) = size := by
+  intro l hne hall
+  cases l with
+  | nil => exact absurd rfl hne
+  | cons a t =>
+    have ha := hall a (List.mem_cons_self)
+    simp [firstSize, Shard.len, ha, hs]
+
+theorem reconstruct_all_present (l : List (List UInt8)) (k size : Nat) (hs : size ≠ 0) (hne : l ≠ [])
+    (hall : ∀ s ∈ l, s.length = size) : reconstruct (l.map some) k = .ok l := by
+  unfold reconstruct
+  simp only [firstSize_of_all size hs l hne hall, hs, if_false]
+  have h1 : ((l.map some).any fun (s : Shard) => decide (s.len ≠ size) && decide (s.len ≠ 0)) = false := by
+    rw [List.any_eq_false]
+    intro s hs'
+    obtain ⟨x, hx, rfl⟩ := List.mem_map.mp hs'
+    simp [Shard.len, hall x hx]
+  have h2 : ((l.map some).filter fun (s : Shard) => decide (s.len ≠ 0)).length = (l.map some).length := by
+    rw [List.filter_eq_self.mpr]
+    intro s hs'
+    obtain ⟨x, hx, rfl⟩ := List.mem_map.mp hs'
+    simp [Shard.len, hall x hx, hs]
+  simp only [h1, Bool.false_eq_true, if_false, h2, if_true]
+  simp [List.map_map, Function.comp_def, Shard.bytes]
+
+end
+
 /-- non-vacuity of `encode_then_join_partial`: a concrete blob IS encodable in the model (kernel evaluation of the
     executable GF(2^8) encoder; the bytes are the ones the Go code returns: 0102 0304 0500 0706 093e) -/
 theorem erasureCode_example : ∃ e, RS.erasureCode [1, 2, 3, 4, 5] 3 2 = .ok e := by
